@@ -46,11 +46,29 @@ def run_wasmbinary(ctx, cases, timeout=900):
     return out
 
 
+_ENGINE = []
+
+
+def _engine10():
+    """an engine restricted to WebAssembly 1.0 (the property says '1.0 binary'): every post-1.0 proposal switched off"""
+    if not _ENGINE:
+        import wasmtime
+        c = wasmtime.Config()
+        for k in ("wasm_gc", "wasm_function_references", "wasm_reference_types", "wasm_relaxed_simd", "wasm_simd", "wasm_bulk_memory", "wasm_multi_memory", "wasm_multi_value",
+                  "wasm_tail_call", "wasm_threads", "wasm_memory64", "wasm_exceptions", "wasm_wide_arithmetic", "wasm_custom_page_sizes", "wasm_stack_switching", "wasm_component_model"):
+            try:
+                setattr(c, k, False)
+            except BaseException:  # noqa - an option this wasmtime build does not have
+                pass
+        _ENGINE.append(wasmtime.Engine(c))
+    return _ENGINE[0]
+
+
 def wasmtime_check(b, calls=()):
     """-> {"valid": bool, "why": str, "results": [python value | ("trap", msg) | ("noexport",)]}"""
     import wasmtime
     try:
-        store = wasmtime.Store()
+        store = wasmtime.Store(_engine10())
         m = wasmtime.Module(store.engine, b)
     except BaseException as e:  # noqa
         return {"valid": False, "why": str(e).replace("\n", " ")[:200], "results": []}
